@@ -9,18 +9,18 @@ open Pymeeus
 
 def sunEarthF : Handler := fun fn a =>
   match fn with
-  | "mean_obliquity" => some <| out (GenF.mean_obliquity a[0]!.f)
-  | "true_obliquity" => some <| out (GenF.true_obliquity a[0]!.f)
-  | "sun_geometric_geocentric_position" => some <| out (GenF.sun_geometric_geocentric_position a[0]!.f a[1]!.b)
-  | "sun_apparent_geocentric_position" => some <| out (GenF.sun_apparent_geocentric_position a[0]!.f a[1]!.b)
-  | "rectangular_coordinates_mean_equinox" => some <| out (GenF.rectangular_coordinates_mean_equinox a[0]!.f)
-  | "rectangular_coordinates_j2000" => some <| out (GenF.rectangular_coordinates_j2000 a[0]!.f)
-  | "rectangular_coordinates_b1950" => some <| out (GenF.rectangular_coordinates_b1950 a[0]!.f)
-  | "rectangular_coordinates_equinox" => some <| out (GenF.rectangular_coordinates_equinox a[0]!.f a[1]!.f)
-  | "true_longitude_coarse" => some <| out (GenF.true_longitude_coarse a[0]!.f)
-  | "apparent_longitude_coarse" => some <| out (GenF.apparent_longitude_coarse a[0]!.f)
-  | "apparent_rightascension_declination_coarse" => some <| out (GenF.apparent_rightascension_declination_coarse a[0]!.f)
-  | "longitude_mean_ascending_node" => some <| out (GenF.longitude_mean_ascending_node a[0]!.f)
+  | "mean_obliquity" => some <| out (GenF.Helio.mean_obliquity a[0]!.f)
+  | "true_obliquity" => some <| out (GenF.Helio.true_obliquity a[0]!.f)
+  | "sun_geometric_geocentric_position" => some <| out (GenF.Helio.sun_geometric_geocentric_position a[0]!.f a[1]!.b)
+  | "sun_apparent_geocentric_position" => some <| out (GenF.Helio.sun_apparent_geocentric_position a[0]!.f a[1]!.b)
+  | "rectangular_coordinates_mean_equinox" => some <| out (GenF.Helio.rectangular_coordinates_mean_equinox a[0]!.f)
+  | "rectangular_coordinates_j2000" => some <| out (GenF.Helio.rectangular_coordinates_j2000 a[0]!.f)
+  | "rectangular_coordinates_b1950" => some <| out (GenF.Helio.rectangular_coordinates_b1950 a[0]!.f)
+  | "rectangular_coordinates_equinox" => some <| out (GenF.Helio.rectangular_coordinates_equinox a[0]!.f a[1]!.f)
+  | "true_longitude_coarse" => some <| out (GenF.Helio.true_longitude_coarse a[0]!.f)
+  | "apparent_longitude_coarse" => some <| out (GenF.Helio.apparent_longitude_coarse a[0]!.f)
+  | "apparent_rightascension_declination_coarse" => some <| out (GenF.Helio.apparent_rightascension_declination_coarse a[0]!.f)
+  | "longitude_mean_ascending_node" => some <| out (GenF.Helio.longitude_mean_ascending_node a[0]!.f)
   | _ => none
 
 end Driver
